@@ -164,7 +164,11 @@ let handle kind c =
           if w <> wn then once "wrong_report" (name ^ " has Week " ^ w) prop07
           else if uniform w then begin
             let fw = week_files w in
-            if ps <> sums_of fw then begin
+            let obs = List.map (fun (p, cs) -> (n_of_int p, List.map (fun (k, v) -> (n_of_int k, z_of_int v)) cs)) ps in
+            let files_of xs = List.map (fun x -> (bytes_of_string x.c_name, x.c_cf)) xs in
+            (* week_reports_ok (Model/Uploader.v): the program entries = the grouping of the week's
+               files by full identity, each value the sum over exactly that group *)
+            if not (week_reports_ok obs (files_of fw)) then begin
               let subs = if List.length fw <= 10 then subsets fw else [] in
               if List.exists (fun s -> s <> [] && sums_of s = ps) subs && mode_on && nth >= 3
                  && (scen = "race3" || scen = "conc3") then
